@@ -1004,6 +1004,56 @@ func c20r19(c *Ctx, r *Report) {
 	r.floor("selects in cancelPreview", n, 1)
 }
 
+// c04r18: with --nth the matchers see one token at a time and report offsets relative to it; Pattern.iter makes
+// them relative to the line by adding the token's prefixLength. The begin / end tie-break keys are computed from
+// these offsets whether or not match positions were requested (round-11 mutant C04c11 applied the shift only
+// under withPos: --nth 2 --tiebreak=begin ranked by field-relative offsets).
+func c04r18(c *Ctx, r *Report) {
+	l := c.L
+	r.rule("C04-R18", "D (offsets are line-relative on every path)", "P1",
+		"in Pattern.iter, both components of the Offset that is returned for a match are sums with Token.prefixLength, computed unconditionally (not merged from branches)",
+		"the begin / end tie-break compares offsets inside different fields as if they were offsets in the line: equal scores come out in the wrong order")
+	fn := l.Fn("fzf", "(*Pattern).iter")
+	fPre := l.Field("fzf", "Token", "prefixLength")
+	if fn == nil || fPre == nil {
+		r.unest("anchors", token.NoPos, nil, "anchors Pattern.iter / Token.prefixLength", "cannot resolve")
+		return
+	}
+	n := 0
+	eachInstr(fn, func(in ssa.Instruction) {
+		st, ok := in.(*ssa.Store)
+		if !ok {
+			return
+		}
+		ia, ok := st.Addr.(*ssa.IndexAddr)
+		if !ok {
+			return
+		}
+		al, ok := ia.X.(*ssa.Alloc)
+		if !ok {
+			return
+		}
+		if nt, ok := deref(al.Type()).(*types.Named); !ok || nt.Obj().Name() != "Offset" {
+			return
+		}
+		if k, ok := st.Val.(*ssa.Const); ok && k != nil {
+			return // the `no match` offset
+		}
+		n++
+		good := false
+		if bo, ok := st.Val.(*ssa.BinOp); ok && bo.Op == token.ADD {
+			for _, side := range []ssa.Value{bo.X, bo.Y} {
+				if f, _ := loadedField(side); f == fPre {
+					good = true
+				}
+			}
+		}
+		r.check(good, fmt.Sprintf("%s:offset component #%d includes the token's prefix length", relName(fn), n), st.Pos(), fn,
+			"res.Start/End + part.prefixLength", "the component is "+describe(st.Val)+": on some path the offset stays relative to the field")
+	})
+	r.floor("components of the match offset in Pattern.iter", n, 2)
+}
+
 func round11(c *Ctx, r *Report, prop string) {
 	switch prop {
 	case "C01":
@@ -1015,6 +1065,8 @@ func round11(c *Ctx, r *Report, prop string) {
 	case "C03":
 		c03r13(c, r)
 		c01r17(c, r)
+	case "C04":
+		c04r18(c, r)
 	case "C05":
 		c05r18(c, r)
 	case "C06":
